@@ -270,6 +270,45 @@ pub fn judge_quote(amp: u64, decs: &[u8], res: &[u128], i: usize, j: usize, offe
     }
 }
 
+/// debugging aid (CLI `dcalc`): the contract's mint-path D next to the exact one
+pub fn dcalc(amp: u64, decs: &[u8], res: &[u128]) -> String {
+    let n = res.len();
+    let denoms: Vec<String> = (0..n).map(|i| format!("tok{i}")).collect();
+    let info = PoolInfo {
+        pool_identifier: "o.k".into(),
+        asset_denoms: denoms.clone(),
+        lp_denom: "factory/x/o.k.LP".into(),
+        asset_decimals: decs.to_vec(),
+        assets: denoms.iter().zip(res.iter()).map(|(d, r)| coin(*r, d.clone())).collect(),
+        pool_type: PoolType::StableSwap { amp },
+        pool_fees: pool_fee(0, 0, 0, &[]),
+        status: PoolStatus::default(),
+    };
+    let r = catch_unwind(AssertUnwindSafe(|| pool_manager::helpers::compute_d_with_pool_info(&amp, &info.assets, &info)));
+    let exact = SsState::new(amp, res, decs, 0).d_floor();
+    format!("contract: {:?}\nexact:    {}", r.map(|o| o.map(|d| d.to_string())), exact)
+}
+
+/// debugging aid (CLI `mintcalc`): LP minted by the contract's stableswap deposit formula
+pub fn mintcalc(amp: u64, decs: &[u8], old: &[u128], new: &[u128], supply: u128, swap_fee_bps: u64) -> String {
+    let n = old.len();
+    let denoms: Vec<String> = (0..n).map(|i| format!("tok{i}")).collect();
+    let info = PoolInfo {
+        pool_identifier: "o.k".into(),
+        asset_denoms: denoms.clone(),
+        lp_denom: "factory/x/o.k.LP".into(),
+        asset_decimals: decs.to_vec(),
+        assets: denoms.iter().zip(old.iter()).map(|(d, r)| coin(*r, d.clone())).collect(),
+        pool_type: PoolType::StableSwap { amp },
+        pool_fees: pool_fee(0, swap_fee_bps, 0, &[]),
+        status: PoolStatus::default(),
+    };
+    let o: Vec<Coin> = denoms.iter().zip(old.iter()).map(|(d, r)| coin(*r, d.clone())).collect();
+    let nw: Vec<Coin> = denoms.iter().zip(new.iter()).map(|(d, r)| coin(*r, d.clone())).collect();
+    let r = catch_unwind(AssertUnwindSafe(|| pool_manager::helpers::compute_lp_mint_amount_for_stableswap_deposit(&amp, &o, &nw, Uint128::new(supply), &info)));
+    format!("{:?}", r.map(|x| x.map(|y| y.map(|z| z.to_string())).map_err(|e| e.to_string())))
+}
+
 pub fn d_case(c: &Case, rep: &mut Reporter) {
     let n = c.res.len();
     let info = &c.info;
